@@ -64,6 +64,9 @@ def tier_of(test, tier):
     t.setdefault("checks", 100)
     t.setdefault("shards", 1)
     t.setdefault("timeout", 900 if tier == "quick" else 7200)
+    # the case counts bound the work; the timeout only catches a wedged process. On a loaded
+    # machine a quick test that needs a minute alone was seen to need ten: leave ample room.
+    t["timeout"] = max(t["timeout"], 2400 if tier == "quick" else 10800)
     return t
 
 def run_task(task):
